@@ -58,6 +58,7 @@ def main():
     ap.add_argument("--demo", required=True); ap.add_argument("--as", dest="dest", required=True)
     ap.add_argument("--features", default=""); ap.add_argument("--needs", default=""); ap.add_argument("--idea", default="")
     ap.add_argument("--test-args", default="")
+    ap.add_argument("--fixed", default="", help="reference = the tree with this corrected twin applied (wrong ADDITIONS: the demo needs the new API)")
     a = ap.parse_args()
     patch = os.path.join(a.outdir, "patch.diff")
     demo = os.path.join(a.outdir, a.demo)
@@ -72,11 +73,17 @@ def main():
         testname = os.path.splitext(os.path.basename(a.dest))[0]
         demo_cmd = ["cargo", "test", "--offline"] + feat + ["--test", testname] + (a.test_args.split() if a.test_args else [])
         os.makedirs(os.path.join(wt, os.path.dirname(a.dest)), exist_ok=True)
-        # without the patch: demo passes
+        # without the patch (or with the corrected twin of a wrong addition): demo passes
+        if a.fixed:
+            rc, out = sh(["git", "apply", os.path.join(a.outdir, a.fixed)], cwd=wt)
+            assert rc == 0, "fixed twin does not apply: " + out
         shutil.copyfile(demo, os.path.join(wt, a.dest))
         rc, out = sh(demo_cmd, cwd=wt, env=env)
-        log["demo_without_patch"] = {"cmd": " ".join(demo_cmd), "exit": rc, "tail": out[-600:]}
+        log["demo_without_patch"] = {"cmd": " ".join(demo_cmd), "exit": rc, "tail": out[-600:], "reference": ("corrected twin " + a.fixed) if a.fixed else "unchanged tree"}
         os.remove(os.path.join(wt, a.dest))
+        if a.fixed:
+            sh(["git", "checkout", "--", "."], cwd=wt)
+            sh(["git", "clean", "-fdq", "-e", "target"], cwd=wt)
         # with the patch: baseline passes, demo fails
         rc, out = sh(["git", "apply", patch], cwd=wt)
         assert rc == 0, "patch does not apply: " + out
@@ -119,12 +126,16 @@ def main():
     shutil.copyfile(demo, os.path.join(sd, os.path.basename(a.dest)))
     if os.path.exists(os.path.join(a.outdir, "README.md")):
         shutil.copyfile(os.path.join(a.outdir, "README.md"), os.path.join(sd, "AGENT_README.md"))
+    if a.fixed:
+        shutil.copyfile(os.path.join(a.outdir, a.fixed), os.path.join(sd, "fixed.diff"))
     meta = {"id": a.id, "breaks_property": a.prop, "idea": a.idea, "needs_to_manifest": a.needs,
             "demonstration": {"file": os.path.basename(a.dest), "place_at": a.dest, "command": log["demo_with_patch"]["cmd"]},
             "confirmed_by_me": {"demo_passes_without_patch": True, "baseline_81_tests_pass_with_patch": True,
                                 "full_feature_tests_pass_with_patch": log["full_features_with_patch"]["exit"] == 0,
                                 "demo_fails_with_patch": True, "log": log},
             "detected_by_checks": caught, "detected_by_target_property": a.prop in caught}
+    if a.fixed:
+        meta["kind"] = "wrong ADDITION: the defect lives in new code; fixed.diff is the same addition with the defect corrected (the demonstration passes on it)"
     json.dump(meta, open(os.path.join(sd, "meta.json"), "w"), indent=1)
     print(f"seeded/{a.id}: caught by {caught if caught else 'NOTHING'}")
     return 0 if a.prop in caught else 1
